@@ -22,7 +22,7 @@ MAX_HELPER_STATEMENTS = 80
 
 
 def _has_bad_constructs(func: ast.FunctionDef) -> bool:
-    if func.decorator_list or func.args.vararg or func.args.kwarg:
+    if func.decorator_list or func.args.vararg:
         return True
     for node in ast.walk(func):
         if node is func:
@@ -105,6 +105,8 @@ class _Rename(ast.NodeTransformer):
 
 def _locals(func: ast.FunctionDef) -> Set[str]:
     names = {a.arg for a in func.args.posonlyargs + func.args.args + func.args.kwonlyargs}
+    if func.args.kwarg is not None:
+        names.add(func.args.kwarg.arg)
     for node in ast.walk(func):
         if isinstance(node, ast.Name) and isinstance(node.ctx, (ast.Store, ast.Del)):
             names.add(node.id)
@@ -116,7 +118,10 @@ def _locals(func: ast.FunctionDef) -> Set[str]:
 def _bind_arguments(helper: ast.FunctionDef, call: ast.Call, suffix: str) -> Optional[List[ast.stmt]]:
     params = helper.args.posonlyargs + helper.args.args
     kwonly = helper.args.kwonlyargs
-    if any(isinstance(a, ast.Starred) for a in call.args) or any(kw.arg is None for kw in call.keywords):
+    starstar = [kw for kw in call.keywords if kw.arg is None]
+    if any(isinstance(a, ast.Starred) for a in call.args):
+        return None
+    if starstar and (helper.args.kwarg is None or len(starstar) > 1):
         return None
     if len(call.args) > len(params):
         return None
@@ -124,10 +129,26 @@ def _bind_arguments(helper: ast.FunctionDef, call: ast.Call, suffix: str) -> Opt
     for param, arg in zip(params, call.args):
         bound[param.arg] = arg
     names = {p.arg for p in params + kwonly}
+    extra = []
     for kw in call.keywords:
-        if kw.arg not in names or kw.arg in bound:
+        if kw.arg is None:
+            continue
+        if kw.arg in bound:
             return None
+        if kw.arg not in names:
+            if helper.args.kwarg is None:
+                return None
+            extra.append(kw)
+            continue
         bound[kw.arg] = kw.value
+    kwarg_value = None
+    if helper.args.kwarg is not None:
+        # **kwargs of the helper: the caller's own ** mapping passed through, plus explicit extras
+        if starstar and not extra:
+            kwarg_value = starstar[0].value
+        else:
+            kwarg_value = ast.Dict(keys=[ast.Constant(kw.arg) for kw in extra] + ([None] if starstar else []),
+                                   values=[kw.value for kw in extra] + ([starstar[0].value] if starstar else []))
     defaults = helper.args.defaults
     for param, default in zip(params[len(params) - len(defaults):], defaults):
         bound.setdefault(param.arg, default)
@@ -140,6 +161,11 @@ def _bind_arguments(helper: ast.FunctionDef, call: ast.Call, suffix: str) -> Opt
     for param in params + kwonly:
         assign = ast.Assign(targets=[ast.Name(id=param.arg + suffix, ctx=ast.Store())], value=bound[param.arg])
         ast.copy_location(assign, call)
+        stmts.append(assign)
+    if kwarg_value is not None:
+        assign = ast.Assign(targets=[ast.Name(id=helper.args.kwarg.arg + suffix, ctx=ast.Store())], value=kwarg_value)
+        ast.copy_location(assign, call)
+        ast.fix_missing_locations(assign)
         stmts.append(assign)
     return stmts
 
